@@ -4,20 +4,23 @@ Tie B: whole runs of PulseCoupledOscillator under both dynamics with scripted in
 maps are NOT taken from the implementation: a recording subclass notes the ARGUMENT of every call of
 normalisePhase / phaseToState / stateToPhase / setFiringTime and the harness recomputes round(x, 5), f and g
 from the formulas; those values are the oracle of Model/Pulse.v.  The one exception is the time a firing is
-posted for: the theorems leave its rounding open (any time between the caller's time and the exact argument
-+ 5e-6), so the model is given the posted time observed through pendingEventTime and Tie/C20.v checks that it
-is such a value (this keeps the tie valid before and after the repair F13, which removes that rounding).
+posted for: the model is given the posted time observed through pendingEventTime and Tie/C20.v checks that it is
+not before the caller's time (the theorems' hypothesis) and within 1e-9 of the PERIOD of the exact argument, on
+both sides (the repaired setFiringTime, F13, posts the argument itself; an absolute slack such as the former 5e-6
+lets a rounding of the time through that is whole phase quanta of a short period).  The tie also checks the one
+hypothesis C20_sync_absorbing_partial makes of round(): an argument that is exactly 1 rounds to 1.
 Compared by vm_compute: the argument of every numeric call (the model computes them exactly in Q), the event
 id and pending time of every node after set-up and after every event, the FIRED taps, the firing log, the
 final phases, time and event count, and the boolean invariant on the model's final queue.
 
 D: the property restated on the implementation's observables only (no model): after set-up and after every
 event each node has exactly one live posted event (scan of dyn._postedEventFinder and of the heap) and its
-'event' attribute names it; it is due at most one period (+5e-6) after the current time; the node that fired
-is due one period later; the log is non-decreasing and matches the FIRED taps one to one; final phases in
-[0, 1]; on complete networks the number of distinct phases (as getPhase(normalise=True) rounds them, and as
-exact pending times) never increases and the largest group never shrinks, sampled whenever no node is due at
-the current time (i.e. after every batch of same-time firings)."""
+'event' attribute names it; it is due at most one period after the current time; the node that fired is due
+one period later (both to 1e-9 of the period, see time_slack); the log is non-decreasing and matches the FIRED
+taps one to one; final phases in [0, 1]; on complete networks the number of distinct phases (as
+getPhase(normalise=True) rounds them, and as exact pending times) never increases and the largest group never
+shrinks, sampled whenever no node is due at the current time (i.e. after every batch of same-time firings).
+A run cut off by the event budget is judged by nothing; obs['stats'] counts them (budget_cut)."""
 import itertools
 import math
 from fractions import Fraction
@@ -29,7 +32,6 @@ from vlib.core import Harness
 from vlib.oracle import Oracle, install, uninstall
 
 PREC = 5
-SLACK = 5e-6
 
 
 # ---------------------------------------------------------------- the formulas, from the paper / docstrings
@@ -58,7 +60,7 @@ def gen_graph(rnd, kind=None, lo=2, hi=8):
     if kind == 'complete':
         edges = list(itertools.combinations(range(n), 2))
     elif kind == 'cycle':
-        edges = [(i, (i + 1) % n) for i in range(n)] if n > 2 else [(0, 1)]
+        edges = [(i, (i + 1) % n) for i in range(n)] if n > 2 else [(0, 1)][:n - 1]
     elif kind == 'star':
         edges = [(0, i) for i in range(1, n)]
     else:
@@ -221,8 +223,13 @@ def run_case(case, budget=140):
         'final_now': dyn.currentSimulationTime() if rc else None,
         'fired_name': PulseCoupledOscillator.FIRED,
     }
-    if exc and exc.startswith('Budget'):
+    # a run cut off by the event budget is judged by nothing: counted, so that a change that makes cases drop out shows
+    cut = bool(exc and exc.startswith('Budget'))
+    if cut:
         obs['skipped'] = True
+    obs['stats'] = {'budget_cut': int(cut), 'events_tapped': len(taps),
+                    'complete_network': int(is_complete(case)), 'one_node': int(len(nodes) == 1),
+                    'period_off_1e-6_grid': int(round(case['period'], 6) != case['period'])}
     return obs
 
 
@@ -232,8 +239,8 @@ def oracle_value(case, call):
     if k == 'N':
         return round(arg, PREC)
     if k == 'T':
-        # the theorems leave the rounding of a posting time open (any value between the caller's time and the
-        # argument + 5e-6): the model is given the time observed and Tie/C20.v checks that it is such a value
+        # the model is given the time observed and Tie/C20.v checks that it is the argument (to 1e-9 of the period) and
+        # not before the caller's time
         if call[3] is None:
             raise ValueError('no posted time')
         return call[3]
@@ -265,6 +272,13 @@ def fl(x):
 
 
 def to_coq(case, obs):
+    t = to_coq_term(case, obs)
+    if isinstance(obs.get('stats'), dict):
+        obs['stats']['not_compared_with_model'] = int(t is None)
+    return t
+
+
+def to_coq_term(case, obs):
     if obs.get('skipped'):
         return None
     ok = obs['exception'] is None and obs['time'] is not None and obs['phases'] is not None
@@ -312,6 +326,13 @@ def code_phase(pt, now, period):
     return 0.0 if phi == 1.0 else phi + 0.0
 
 
+def time_slack(period, at):
+    """what 'exactly one period' allows a binary64 time near `at`: 1e-9 of the PERIOD (not of the time, and not an
+    absolute amount: a shift that is small against the clock can still be whole phase quanta of a short period), and
+    never less than two units in the last place of the time itself, which no way of adding the period can avoid"""
+    return max(1e-9 * abs(period), 2 * math.ulp(at))
+
+
 def direct(case, obs):
     out = []
 
@@ -337,7 +358,6 @@ def direct(case, obs):
     nodes = make_graph(case['graph']).nodes()
     nn = len(nodes)
     taps = obs['taps']
-    slack = SLACK * (1 + 1e-6)
     complete = is_complete(case)
     last_sample = None
     ev = -1
@@ -354,15 +374,15 @@ def direct(case, obs):
                 bad('no-pending-event', snap=ev, node=p['node'], id=p['id'])
             elif p['live_ids'] != [p['id']]:
                 bad('live-entries-not-one', snap=ev, node=p['node'], id=p['id'], live=p['live_ids'])
-            elif not (p['pending'] <= now + period + slack):
-                bad('due-later-than-one-period', snap=ev, node=p['node'], pending=p['pending'], now=now)
+            elif not (p['pending'] <= now + period + time_slack(period, now + period)):
+                bad('due-later-than-one-period', snap=ev, node=p['node'], pending=p['pending'], now=now, period=period)
         if s['finder'] != nn or s['heap_live'] != nn:
             bad('live-entries-total', snap=ev, finder=s['finder'], heap_live=s['heap_live'], nodes=nn)
         # the node that fired is due one period later; the log follows the taps
         if s['tag'] == 'event':
             me = [p for p in s['nodes'] if p['node'] == e]
-            if len(me) != 1 or me[0]['pending'] is None or abs(me[0]['pending'] - (t + period)) > slack:
-                bad('refire-not-one-period-later', snap=ev, node=e, t=t, pending=me[0]['pending'] if me else None)
+            if len(me) != 1 or me[0]['pending'] is None or abs(me[0]['pending'] - (t + period)) > time_slack(period, t + period):
+                bad('refire-not-one-period-later', snap=ev, node=e, t=t, period=period, pending=me[0]['pending'] if me else None)
             if len(s['log_t']) != ev + 1 or len(s['log_n']) != ev + 1:
                 bad('log-length', snap=ev, times=len(s['log_t']), nodes=len(s['log_n']))
             elif s['log_t'][-1] != t or s['log_n'][-1] != e:
@@ -399,18 +419,48 @@ def direct(case, obs):
 
 
 # ---------------------------------------------------------------- generator
-PERIODS = [1.0, 1.0, 2.0, 0.5, 0.7, 1.3, 0.25, 3.0, 0.12345, 0.123451234, 0.700003, 0.001003, 2.3333333333]
+# the last three periods of the first line lie off the 1e-6 and 1e-7 grids too (F13 one and two places finer)
+PERIODS = [1.0, 1.0, 2.0, 0.5, 0.7, 1.3, 0.25, 3.0, 0.12345, 0.123451234, 0.700003, 0.001003, 2.3333333333,
+           0.0123454, 0.00100037, 0.00400044]
+SYNC_PERIODS = [1.0, 2.0, 0.5, 0.7, 1.3, 3.0, 0.700003, 2.3333333333]
+OFFGRID_PERIODS = [0.123451234, 0.001003, 0.0300049, 0.700003, 0.0123454, 0.00100037, 0.00400044]
 BS = [1.0, 1.0, 2.0, 0.5, 3.0, 5.0]
 COUPLINGS = [0.125, 0.05, 0.3, 0.007, 1.0, 0.0, 0.5, -0.05]
+# the wide pools: very small / very large periods, dissipation negative, tiny and large, couplings above 1, strongly
+# negative, just below 1 and tiny.  Dissipation 0.01, 0.1 and 1e-6 are values at which phaseToState(1.0) is not 1.0 in
+# binary64 (0.99999999999999 / 1.0000000000000007 / 0.99999999996).
+WIDE_PERIODS = [1e-7, 7.0, 1000.0, 0.0123454, 0.00100037, 0.00400044]
+WIDE_SYNC_PERIODS = [7.0, 0.3, 1.0]
+WIDE_BS = [-3.0, -1.0, 0.01, 1e-6, 10.0, 30.0, 0.1]
+WIDE_COUPLINGS = [2.0, -1.0, 0.999, 1e-9, -0.3]
+DYADIC = 1 << 20
+# dissipations at which phaseToState(1.0) != 1.0 in binary64, with negative couplings (F18: cascade() tested the STATE
+# for "already synchronised", did not recognise a node due now and bumped it back out of its group)
+INEXACT_BS = [0.01, 0.1, 1e-6]
+NEG_COUPLINGS = [-0.05, -0.3, -0.007, -0.5, -0.999]
+
+
+def offgrid_period(rnd):
+    """a period of 0.001-0.02 with nine decimals: off every coarser decimal grid, so that a time rounded to 6, 7 or 8
+    places is a visible fraction of a phase quantum (1e-5 of the period) away from where it belongs"""
+    return rnd.randrange(1000000, 20000000) * 1e-9 + 1e-9 * rnd.choice([0.37, 0.5, 0.81])
 
 
 def gen_case(rnd, tier='quick'):
-    graph = gen_graph(rnd)
+    wide = rnd.random() < 0.3            # values outside the everyday pools (each drawn separately below)
+    if wide and rnd.random() < 0.5:
+        graph = gen_graph(rnd, None, *rnd.choice([(1, 10), (1, 1), (9, 10)]))
+        if len(graph['nodes']) == 1 and graph['kind'] == 'loops' and rnd.random() < 0.5:
+            graph['edges'] = [[0, 0]]
+    else:
+        graph = gen_graph(rnd)
     n = len(graph['nodes'])
     dynamics = rnd.choice(['stochastic', 'synchronous'])
     period = rnd.choice(PERIODS)
     if dynamics == 'synchronous':
-        period = rnd.choice([1.0, 2.0, 0.5, 0.7, 1.3, 3.0, 0.700003, 2.3333333333])
+        period = rnd.choice(SYNC_PERIODS)
+    if wide and rnd.random() < 0.5:
+        period = rnd.choice(WIDE_SYNC_PERIODS if dynamics == 'synchronous' else WIDE_PERIODS)
     cycles = rnd.choice([1.5, 2.5, 4.0, 6.0])
     while n * cycles > 24 and cycles > 1.5:
         cycles -= 1.0
@@ -423,28 +473,45 @@ def gen_case(rnd, tier='quick'):
         if mode == 0 and states and rnd.random() < 0.5:
             states.append(rnd.choice(states))                 # synchronised from the start
         elif mode == 1 and rnd.random() < 0.3:
-            states.append(rnd.choice([0.0, 0.5, 1 - 2.0 ** -20, 2.0 ** -20]))
+            states.append(rnd.choice([0.0, 0.5, 1 - 2.0 ** -20, 2.0 ** -20, 1 - 2.0 ** -30]))
         elif mode == 2 and states:
             states.append(min(1 - 2.0 ** -20, max(0.0, states[0] + rnd.randrange(-8, 9) * 2.0 ** -14)))   # nearly synchronised
         else:
-            states.append(rnd.randrange(0, 1 << 20) / float(1 << 20))
-    case = {'graph': graph, 'period': period, 'b': rnd.choice(BS), 'coupling': rnd.choice(COUPLINGS),
+            states.append(rnd.randrange(0, DYADIC) / float(DYADIC))
+    b = rnd.choice(WIDE_BS) if wide and rnd.random() < 0.5 else rnd.choice(BS)
+    coupling = rnd.choice(WIDE_COUPLINGS) if wide and rnd.random() < 0.5 else rnd.choice(COUPLINGS)
+    case = {'graph': graph, 'period': period, 'b': b, 'coupling': coupling,
             'maxtime': maxtime, 'dynamics': dynamics, 'states': states}
     if rnd.random() < 0.3:
         case['inst'] = rnd.choice(['fireflies', 'a', 'x.1'])
         if rnd.random() < 0.6:
             from epydemic import PulseCoupledOscillator as PCO
             case['decoy'] = {PCO.PERIOD: rnd.choice([0.25, 3.0, 1.0]), PCO.B: rnd.choice([0.5, 1.0, 4.0]), PCO.COUPLING: rnd.choice([0.0, 1.0, 0.3])}
-    if rnd.random() < 0.12:
-        # synchronised groups on a complete network with a period off the 1e-5 grid (F13)
+    if rnd.random() < 0.16:
+        # synchronised groups on a complete network with a period off the decimal grids (F13, and the same defect one
+        # or more places finer): a posting time that is rounded at all splits the groups
         g = gen_graph(rnd, 'complete', 2, 5)
         k = len(g['nodes'])
-        base = [rnd.randrange(0, 1 << 20) / float(1 << 20) for _ in range(2)]
-        case.update(graph=g, dynamics='stochastic', period=rnd.choice([0.123451234, 0.001003, 0.0300049, 0.700003]),
+        base = [rnd.randrange(0, DYADIC) / float(DYADIC) for _ in range(2)]
+        case.update(graph=g, dynamics='stochastic',
+                    period=offgrid_period(rnd) if rnd.random() < 0.35 else rnd.choice(OFFGRID_PERIODS),
                     states=[rnd.choice(base) for _ in range(k)])
+        if rnd.random() < 0.7:
+            case.update(b=rnd.choice(BS), coupling=rnd.choice([0.125, 0.05, 0.3, 0.007, 0.5]))
         case['maxtime'] = case['period'] * rnd.choice([2.5, 4.0])
+    elif rnd.random() < 0.07:
+        # equal groups on a small complete network, a dissipation at which f(1.0) != 1.0 and a negative coupling (F18)
+        g = gen_graph(rnd, 'complete', 2, 4)
+        k = len(g['nodes'])
+        base = [rnd.randrange(0, DYADIC) / float(DYADIC) for _ in range(2)]
+        dyn = rnd.choice(['stochastic', 'synchronous'])
+        per = rnd.choice(SYNC_PERIODS if dyn == 'synchronous' else PERIODS)
+        mt = per * rnd.choice([2.5, 4.0])
+        case.update(graph=g, dynamics=dyn, period=per, b=rnd.choice(INEXACT_BS), coupling=rnd.choice(NEG_COUPLINGS),
+                    states=[rnd.choice(base) for _ in range(k)],
+                    maxtime=float(max(2, math.ceil(mt))) if dyn == 'synchronous' else mt)
     if rnd.random() < 0.25:
-        case['prerun'] = [rnd.randrange(0, 1 << 20) / float(1 << 20) for _ in range(len(case['states']))]
+        case['prerun'] = [rnd.randrange(0, DYADIC) / float(DYADIC) for _ in range(len(case['states']))]
     return case
 
 
@@ -458,20 +525,27 @@ class H(Harness):
     CASE_TIMEOUT = 30
     ALLOWED_AXIOMS = set()
     RULE = ('whole runs of PulseCoupledOscillator on networks of 2-8 nodes (complete, cycle, star, random, random with self-loops; '
-            'node order sometimes not numeric), periods incl. non-dyadic ones and ones off the 1e-5 grid (0.123451234, 0.001003, ...), '
-            'dissipation 0.5-5, couplings incl. 0, 1 and a negative one, StochasticDynamics and SynchronousDynamics, scripted initial '
-            'states (random dyadic, equal groups, nearly equal, 0 and almost 1), a stream of synchronised groups on complete networks '
-            'with off-grid periods (F13); all 8 graphs on 3 labelled nodes x both dynamics x 3 state patterns exhaustively; '
+            'node order sometimes not numeric), periods incl. non-dyadic ones and ones off the 1e-5, 1e-6 and 1e-7 grids (0.123451234, '
+            '0.001003, 0.0123454, 0.00100037, 0.00400044), dissipation 0.5-5, couplings incl. 0, 1 and a negative one, StochasticDynamics '
+            'and SynchronousDynamics, scripted initial states (random dyadic, equal groups, nearly equal, 0, almost 1 incl. 1-2^-30); '
+            '30 % of the cases draw from wide pools: 1, 9 or 10 nodes (one node also with a self-loop), periods 1e-7, 7, 1000, '
+            'dissipation -3, -1, 0.01, 0.1, 1e-6, 10, 30, couplings 2, -1, -0.3, 0.999, 1e-9; a stream (16 %) of synchronised groups on '
+            'complete networks of 2-5 nodes with off-grid periods, a third of them random 9-decimal periods in 0.001-0.02 (F13 and the '
+            'same defect at finer roundings); a stream (7 %) of equal groups on K2-K4 with a dissipation at which phaseToState(1.0) != 1.0 '
+            '(0.01, 0.1, 1e-6) and a negative coupling, both dynamics (F18); corpus witnesses of F13 and F18; all 8 graphs on 3 labelled '
+            'nodes x both dynamics x 3 state patterns exhaustively; '
             'non-trivial = at least 3 firings and at least one cascade that moved a node; distinct by the whole case')
     TRUSTED = ['Coq 8.16.1 kernel incl. vm_compute',
                'harness/c20.py and vlib (scripted rng.random, recording of the arguments of the numeric maps, reading of '
                'dyn._postedEventFinder / _postedEvents and of the node attribute for D)',
                'the values of decimal round(x, 5), exp and log are computed by CPython from the recorded arguments (oracle values of the model)']
-    ASSUMPTIONS = ['C20_sync_absorbing_partial assumes that the pending time a bumped node moves to is a function of the event time and its '
-                   'old pending time alone, that a node due now stays due now or joins the firing node, and that a node that has just '
-                   'fired is left where it is (phase 0 maps to itself); D checks the conclusion on every complete-network case',
+    ASSUMPTIONS = ['C20_sync_absorbing_partial assumes that the pending time a bumped node that is not itself due now moves to is a function '
+                   'of the event time and its old pending time alone, that a node that has just fired is left where it is (phase 0 maps '
+                   'to itself), and that round(x, 5) of exactly 1 is 1 (checked on every run by the tie); that a node due now is passed '
+                   'over is proved (C20_due_now_passed_over); D checks the conclusion on every complete-network case',
                    'period > 0 and dissipation != 0 (otherwise the code divides by zero or posts into the past)',
-                   'the time a firing is posted for is observed (pendingEventTime) and checked per run to lie between the caller time and the exact argument + 5e-6, which is all the theorems assume of it']
+                   'the time a firing is posted for is observed (pendingEventTime) and checked per run to be not before the caller time and '
+                   'within 1e-9 of the period of the exact argument; the theorems assume only caller time <= it <= a monotone bound of the argument']
 
     def gen_cases(self, tier, rnd, n):
         return [gen_case(rnd, tier) for _ in range(n)]
